@@ -227,7 +227,11 @@ def getOnly (view name : Str) (text : Str) (idx : Nat) (want : Option String := 
           | none => withTriggers "*" (if canPanicRow g then ["F-C15-11"] else [])
           | some t =>
             let _ := want
-            withTriggers t (if v == .panic then ["F-C15-11"] else [])
+            -- F-C15-21: `No-Support-for-Architecture-all` is not a yes/no flag: the one value the
+            -- repository format defines is `Packages`, which the accessor reads as false
+            let nsaa := view == "apt.Release".toList && name == "no_support_for_architecture_all".toList
+              && pget cs "No-Support-for-Architecture-all".toList == some "Packages".toList
+            withTriggers t ((if v == .panic then ["F-C15-11"] else []) ++ (if nsaa then ["F-C15-21"] else []))
 
 /-- steps `acc=value;…` -/
 def decSteps (f : String) : Option (List (Str × Val)) :=
